@@ -9,6 +9,7 @@ the call must raise, return nothing, and (VMX) leave the visible configuration u
 from __future__ import annotations
 
 import base64
+import hashlib
 import copy
 import sys
 import uuid
@@ -48,6 +49,13 @@ def vmx_cfg(seed: int, k: int) -> dict:
     return cfg
 
 
+def _salt(cfg, right, rb):
+    s = rb(cfg["salt_len"])  # drawn in any case, so that the other random fields do not depend on fixed_salt
+    if right and cfg.get("fixed_salt"):
+        return bytes.fromhex(cfg["fixed_salt"])
+    return s
+
+
 def build_vmx(cfg: dict):
     """Returns (vmx text, expected attr after unlock, outer attr, blobs) for a config."""
     rng = rng_for("vmxbuild", cfg["seed"])
@@ -64,7 +72,7 @@ def build_vmx(cfg: dict):
         dk = data_key if right else rb(32)
         # every pair names its own MAC; encryption.data is sealed with the MAC of the pair that holds its key
         text, blob = W.keysafe_pair(pw, cfg["kdf"] if right else rng.choice(sorted(W.KDFS)), cfg["cipher"] if right else rng.choice(sorted(W.CIPHERS)),
-                                    cfg["rounds"] if right else 2, rb(cfg["salt_len"]), cfg["mac"] if right else rng.choice(sorted(W.MACS)), dk,
+                                    cfg["rounds"] if right else 2, _salt(cfg, right, rb), cfg["mac"] if right else rng.choice(sorted(W.MACS)), dk,
                                     cfg["data_cipher"] if right else "AES-256", rb(8), rb(16), cfg["upper"], cfg.get("dict_style", "full"))
         pairs.append(text)
         blobs.append(blob)
@@ -121,6 +129,9 @@ def _c15_plan(tier, verif_seed):
             plan.append((kk, ["pass", variant]))
         for seqk in ("wrong_then_right", "right_then_wrong", "right_twice", "wrong_wrong_right"):
             plan.append((kk, ["seq", seqk]))
+        for other in range(3):
+            for order in (0, 1):
+                plan.append((kk, ["twofiles", other, order]))
         plan.append((kk, ["trunc_data", 1]))
         plan.append((kk, ["trunc_wrap", 1]))
     return plan
@@ -167,6 +178,35 @@ def _run_c15(case, world, log, v):
               "normalised": _other_form(pw),
               "other_pair": "other-%d" % ((cfg["which"] + 1) % max(cfg["npairs"], 2)) if cfg["npairs"] > 1 else "other-9"}[t[1]]
     world.faults_fired["tamper_" + t[0]] += 0 if t[0] == "none" else 1
+    if t[0] == "twofiles":
+        # two configurations in one process that share passphrase, salt, rounds and KDF but wrap with different ciphers (a
+        # re-keyed copy of the same VM): each must unlock to its own content, in either order
+        ciphers = sorted(W.CIPHERS)
+        cfg2 = dict(cfg, cipher=ciphers[(ciphers.index(cfg["cipher"]) + 1 + t[1] % 2) % 3], seed=cfg["seed"] ^ 0x5A5A, npairs=1, which=0)
+        salt = hashlib.sha256(b"salt%d" % cfg["seed"]).digest()[: cfg["salt_len"]]
+        cfg1 = dict(cfg, fixed_salt=salt.hex())
+        cfg2["fixed_salt"] = salt.hex()
+        if t[1] == 2:
+            cfg2["kdf"] = sorted(W.KDFS)[(sorted(W.KDFS).index(cfg["kdf"]) + 1) % 2]
+        pair_ = [cfg1, cfg2] if t[2] == 0 else [cfg2, cfg1]
+        for n_f, c_ in enumerate(pair_):
+            text_, expected_, _, _, _ = build_vmx(c_)
+            vm = VMX.parse(text_)
+            raised = None
+            try:
+                with metered(STEP_LIMIT, "loop"):
+                    vm.unlock_with_phrase(pw)
+            except BudgetExceeded:
+                return v("budget", "unlock did not finish within the step budget"), cfg
+            except Exception as e:
+                raised = e
+            log.add("reader", "unlock-file", [case["k"], t, n_f], "raised:" + type(raised).__name__ if raised else "ok")
+            if raised is not None:
+                return v("sequence-right-rejected", f"file {n_f + 1} of two ({c_['cipher']}/{c_['kdf']}, same passphrase and salt as the other file) "
+                                                    f"raised {type(raised).__name__}: {raised}"), cfg
+            if vm.attr != expected_:
+                return v("sequence-differs", f"file {n_f + 1} of two: unlocked configuration differs"), cfg
+        return None, cfg
     if t[0] == "seq":
         # several unlock attempts on one parsed object: results may depend only on the passphrase given to each call
         vm = VMX.parse(vmx_text)
@@ -229,7 +269,7 @@ def _run_c15(case, world, log, v):
 BIG_K = 100000
 _M = 1 << 20
 BIG_LENS = [4 * _M - 4096 - 1, 4 * _M - 4096, 4 * _M - 4095, 4 * _M - 100, 4 * _M - 1, 4 * _M, 4 * _M + 1, 8 * _M - 2000, 8 * _M - 4096, 1 * _M - 50,
-            2 * _M - 4095, 12 * _M - 1, 16 * _M - 3000, 3 * _M + 12345]
+            2 * _M - 4095, 12 * _M - 1, 16 * _M - 3000, 3 * _M + 12345, 20 * _M + 5, 33 * _M]
 
 
 def env_cfg(seed: int, k: int) -> dict:
